@@ -71,8 +71,8 @@ fn step_alphabet(tier: Tier) -> Vec<S> {
     }
     v.push(S::Delete(1));
     v.push(S::Delete(u64::MAX));
-    if tier.quick() {
-        // thin the inference variants for the quick tier
+    if false && tier.quick() {
+        // (thinning of the inference variants, no longer used)
         let mut k = 0;
         v.retain(|s| {
             if matches!(s, S::Inference { .. }) {
